@@ -19,8 +19,9 @@ WITNESSES = ("W_NoWindowSplitMove", "W_NoFinalizingRename")
 
 def e1(ctx):
     ctx.model_check("MCListing", "MCListing_filter.cfg" if ctx.quick else "MCListing_filter_thorough.cfg", coverage=False, timeout=1500)
-    ctx.model_check("MCListing", "MCListing_cov.cfg", required_actions=("SetFlags", "SetStart", "SetEnd", "StartEarlier",
-                                                                         "DropStart", "EndLater", "DropEnd"), timeout=600)
+    ctx.model_check("MCListing", "MCListing_actions.cfg", coverage=False, extra=["-continue"], tag="actions", timeout=600,
+                    expect_violated=tuple("W_Never" + a for a in ("SetFlags", "SetStart", "SetEnd", "StartEarlier", "DropStart",
+                                                                  "EndLater", "DropEnd")))
     for w in WITNESSES:
         ctx.model_check("MCListing", "MCListing_%s.cfg" % w, expect_violated=(w,), coverage=False, tag=w, timeout=600)
 
